@@ -95,6 +95,8 @@ fn create_sync_vec(size: usize) -> (SyncVecWr, SyncVecRd) {
     let decoded = Arc::new((Mutex::new(0), Condvar::new()));
     let failed = Arc::new(AtomicBool::new(false));
     let buffer_ptr = buffer.as_ptr();
+    #[cfg(jubako_verif)]
+    crate::verif::probe("dec_create", buffer_ptr as u64, size as u64);
     let rd = SyncVecRd {
         _arc: Arc::clone(&buffer),
         buffer: buffer_ptr,
